@@ -326,6 +326,14 @@ let handle kind a =
         ^ "|" ^ string_of_int (int_of_nat pos) in
       Some ("sync=" ^ show (sync_header_case prefix data)
             ^ " async=" ^ show (async_header_case prefix cap (script_codes a.(3) a.(4)) data))
+  | "ahrd" ->
+      (* fmt data cap sizes with_pending rsizes: printing only *)
+      let prefix = n_of_int (if a.(0) = "sam" then 64 else 35) in
+      let data = bytes_of_hex a.(1) and cap = nat_of_int (int_of_string a.(2)) in
+      let rsizes = if a.(5) = "_" then [] else List.map (fun x -> nat_of_int (int_of_string x)) (split_on ',' a.(5)) in
+      let (l, pos) = async_header_reads_case prefix cap (script_codes a.(3) a.(4)) rsizes data in
+      Some (String.concat ";" (List.map (function ROk bs -> hex_of_bytes bs | RInt -> "Int") l)
+            ^ "|" ^ string_of_int (int_of_nat pos))
   | "abcf" ->
       let data = bytes_of_hex a.(0) in
       let chunk = nat_of_int (int_of_string a.(3)) in
